@@ -322,6 +322,10 @@ func Sub(a, b *Term) *Term {
 	if same(a, b) {
 		return BV(a.Sort.W, 0)
 	}
+	// (x + c) - x = c
+	if a.Op == "bvadd" && a.Args[1].IsConst() && same(a.Args[0], b) {
+		return a.Args[1]
+	}
 	return bin("bvsub", a, b, func(x, y uint64, w int) uint64 { return x - y })
 }
 func Mul(a, b *Term) *Term {
